@@ -205,17 +205,33 @@ def _start(exe, lines, ulimit_stack):
     f.write("\n".join(lines) + "\n")
     f.flush()
     f.seek(0)
-    p = subprocess.Popen(cmd, stdin=f, stdout=subprocess.PIPE, stderr=subprocess.DEVNULL, text=True)
+    # stdout goes to a file as well: with a pipe a shard whose output exceeds the pipe buffer would block until
+    # the collector gets to it, which serialises the shards
+    o = tempfile.TemporaryFile(mode="w+", dir=os.path.join(CACHE, "io"))
+    p = subprocess.Popen(cmd, stdin=f, stdout=o, stderr=subprocess.DEVNULL, text=True)
     f.close()
+    p._zv_out = o
     return p
 
 
-def _collect(exe, p, idxs, lines, res, timeout, ulimit_stack):
+def _finish(p, timeout):
+    """wait for the process; returns (output so far, timed_out)"""
+    timed_out = False
     try:
-        out, _ = p.communicate(timeout=timeout)
+        p.wait(timeout=timeout)
     except subprocess.TimeoutExpired:
         p.kill()
-        out, _ = p.communicate()
+        p.wait()
+        timed_out = True
+    p._zv_out.seek(0)
+    out = p._zv_out.read()
+    p._zv_out.close()
+    return out, timed_out
+
+
+def _collect(exe, p, idxs, lines, res, timeout, ulimit_stack):
+    out, timed_out = _finish(p, timeout)
+    if timed_out:
         out = out or ""
         outs = out.split("\n")[:-1] if out.endswith("\n") else out.split("\n")[:-1]
         for k, i in enumerate(idxs):
